@@ -341,6 +341,8 @@ def b_len(it, args, kwargs, node):
         it.note_unknown(node, f'len of object {v!r}')
     s = it.fresh('len')
     it.store.declare(s, 0, None, info=f'len({v!r})')
+    if not isinstance(v, (SymV, DictV, IterV)):
+        it.store.__dict__.setdefault('opaque', set()).add(s)
     return IntV(Lin.sym(s), tags=value_tags(v))
 
 
@@ -803,6 +805,7 @@ def b_zip(it, args, kwargs, node):
         else:
             m = it.fresh('minlen')
             it.store.declare(m, 0, None, info='length of zip()')
+            it.store.__dict__.setdefault('opaque', set()).add(m)     # m <= every length is all that is recorded
             for l in lens:
                 it.store.assume_ge0(l - Lin.sym(m))
             length = Lin.sym(m)
@@ -812,13 +815,19 @@ def b_zip(it, args, kwargs, node):
 def b_sum(it, args, kwargs, node):
     s = it.fresh('sum')
     it.store.declare(s, None, None)
+    it.store.__dict__.setdefault('opaque', set()).add(s)
     return IntV(Lin.sym(s))
 
 
 def b_divmod(it, args, kwargs, node):
     a, b = it.as_lin(args[0]), it.as_lin(args[1])
+    cb0 = it.store.canon(b) if b is not None else None
+    if a is not None and cb0 is not None and cb0.is_const() and cb0.c > 0:
+        q_, r_ = it.divmod_const(a, cb0.c)
+        return TupleV([IntV(q_), IntV(r_)])
     q, r = it.fresh('q'), it.fresh('r')
     it.store.declare(q, None, None)
+    it.store.__dict__.setdefault('opaque', set()).update((q, r))
     cb = it.store.canon(b) if b is not None else None
     if cb is not None and cb.is_const() and cb.c > 0:
         it.store.declare(r, 0, cb.c - 1)
